@@ -304,3 +304,87 @@ func init() {
 		c.Note("server option product x 3 consecutive handshakes per server over admitted carriers (polling xhr/b64/jsonp, websocket) and revisions")
 	})
 }
+
+// Two (three) handshakes submitted together, every interleaving of their handlers and send goroutines up to
+// the bound: each response's open packet names the session that was created for that very request.
+func togetherBody(n int, jsonp bool) vsched.Body {
+	return func(x *vsched.Exec) {
+		o := config.DefaultServerOptions()
+		w := NewWorld(x, o)
+		var pcs []*PollClient
+		var rs []*Resp
+		for i := 0; i < n; i++ {
+			pc := &PollClient{W: w, EIO: 4}
+			if jsonp {
+				pc.JSONP = fmt.Sprint(i)
+			}
+			pcs = append(pcs, pc)
+			rs = append(rs, pc.Get())
+		}
+		x.Run(x.Now() + time.Second)
+		for _, t := range x.Panics() {
+			x.Fail("panic[handshakes together]: thread %s: %v", t.Name, t.Panic)
+		}
+		if len(w.Socks) != n {
+			x.Fail("connection-events[together]: %d connection events for %d handshakes", len(w.Socks), n)
+			return
+		}
+		seen := map[string]bool{}
+		for i, r := range rs {
+			pk, err := pcs[i].DecodeResp(r)
+			if err != nil || len(pk) == 0 || !r.wrote {
+				x.Fail("handshake-undecodable[together]: handshake %d: wrote=%v err=%v", i+1, r.wrote, err)
+				continue
+			}
+			open, err := ParseOpen(pk[0])
+			if err != nil {
+				x.Fail("no-open-packet[together]: handshake %d: %v", i+1, err)
+				continue
+			}
+			sid, _ := open["sid"].(string)
+			// the session created for this request
+			mine := -1
+			for si, rec := range w.Socks {
+				if rc := rec.Sock.Request(); rc != nil && rc.Request() == r.Req {
+					mine = si
+				}
+			}
+			if mine < 0 {
+				x.Fail("connection-events[together]: no session was created for handshake request %d", i+1)
+				continue
+			}
+			if sid != w.Socks[mine].Id {
+				whose := "no session"
+				for si, rec := range w.Socks {
+					if rec.Id == sid {
+						whose = fmt.Sprintf("the session created for another request (#%d)", si+1)
+					}
+				}
+				x.Fail("open-sid[together]: the open packet answering handshake request %d names %s, not the session created for it", i+1, whose)
+			}
+			if seen[sid] {
+				x.Fail("sid-reused[together]: two handshake responses name the same session")
+			}
+			seen[sid] = true
+			if s, ok := w.Srv.Clients().Load(w.Socks[mine].Id); !ok || s.Id() != w.Socks[mine].Id {
+				x.Fail("registry-entry[together]: session %d not reachable under its id", mine+1)
+			}
+		}
+		if c := w.Srv.ClientsCount(); c != uint64(n) {
+			x.Fail("registry-count[together]: ClientsCount=%d after %d handshakes", c, n)
+		}
+		x.Outcome = fmt.Sprintf("%d sessions", len(w.Socks))
+	}
+}
+
+func init() {
+	register("C06", "together", false, func(c *Ctx) {
+		c.ExploreDev("two polling handshakes together", Pick(c, 1, 2), Pick(c, 3, 5), togetherBody(2, false))
+		c.ExploreDev("two JSONP handshakes together", Pick(c, 1, 2), Pick(c, 3, 5), togetherBody(2, true))
+		if c.Thorough() {
+			c.ExploreDev("three polling handshakes together", 1, 3, togetherBody(3, false))
+		}
+		c.Res.Distinct = 2
+		c.Note("two (thorough: also three) handshake requests submitted together, every interleaving of the handlers and send goroutines up to the bound: the open packet of each response carries the id of the session created for that request; one registry entry each")
+	})
+}
